@@ -364,6 +364,16 @@ HEADER = ('From Coq Require Import List ZArith NArith.\nImport ListNotations.\n'
           'From FIM Require Import Base.Str Base.Regex Model.Labels16Types Model.Labels16.\n')
 
 
+def kept_corpus(stream):
+    """minimised cases kept from earlier violations (mutants / reverts): corpus/C16/minimised.json"""
+    p = os.path.join(VERIF, 'corpus', 'C16', 'minimised.json')
+    try:
+        with open(p) as f:
+            return list(json.load(f).get(stream, []))
+    except (OSError, ValueError):
+        return []
+
+
 # ----------------------------------------------------------------------------------------------
 # stream: primitives
 # ----------------------------------------------------------------------------------------------
@@ -505,7 +515,7 @@ class LabelsStream(Stream):
         for f in fields:
             r = rng.random()
             if r < 0.03:
-                kws.append([rng.choice(['zz_unknown', 'vlans', 'Vlan']), 'x'])
+                kws.append([rng.choice(['zz_unknown', 'vlans', 'Vlan']), rng.choice(['x', 'x', None, 5, ['a', 'b']])])
                 continue
             if r < 0.05:
                 kws.append([f, rng.choice([None, 5])])
@@ -540,9 +550,11 @@ class LabelsStream(Stream):
                 out.append({'entry': e, 'base': [], 'kws': [['vlan', ['1', v]]]})
             out.append({'entry': e, 'base': [['vlan', '5']], 'kws': [['numa', '7\n']]})
             out.append({'entry': e, 'base': [], 'kws': [['zz_unknown', 'x']]})
+            out.append({'entry': e, 'base': [], 'kws': [['zz_unknown', None], ['vlan', '7']]})
+            out.append({'entry': e, 'base': [], 'kws': [['vlan', '7'], ['zz_unknown', 5]]})
             out.append({'entry': e, 'base': [], 'kws': [['asn', '4294967295'], ['vlan_range', '10-9']]})
             out.append({'entry': e, 'base': [], 'kws': [['ipv6', ''], ['bdf', '0000:00:00x0']]})
-        return out
+        return out + kept_corpus('labels')
 
     def observe(self, case):
         from fim.slivers.capacities_labels import Labels
@@ -594,11 +606,11 @@ class LabelsStream(Stream):
         for idx, kws in enumerate(seqs):
             fg = forgiving and idx == len(seqs) - 1
             for k, v in kws:
+                if k not in ALL_FIELDS and fg:
+                    continue            # decoding is forgiving: a key that is not a field is skipped, whatever its value
                 if not (isinstance(v, str) or (isinstance(v, list) and all(isinstance(x, str) for x in v))):
                     return ('reject', 'value of %s is not a string or list of strings' % k)
                 if k not in ALL_FIELDS:
-                    if fg:
-                        continue
                     return ('reject', 'no such field ' + k)
                 for x in ([v] if isinstance(v, str) else v):
                     if not documented(k, x):
@@ -815,7 +827,7 @@ class Misc(Stream):
                 out.append({'kind': 'jd_str', 'cls': cls, 'v': '"' + 'a' * (ln - 2) + '"'})
                 out.append({'kind': 'jd_obj', 'cls': cls, 'v': ['a' * (ln - 4)]})
         out.append({'kind': 'jd_obj', 'cls': 'UserData', 'v': None})
-        return out
+        return out + kept_corpus('misc')
 
     @staticmethod
     def decode_obj(v):
@@ -1110,7 +1122,7 @@ class Topo(Stream):
                 out.append({'kind': 'rename', 'cls': cls, 'v': v})
         out.append({'kind': 'update_labels', 'base': [['vlan', '5']], 'kws': [['vlan', '6\n']]})
         out.append({'kind': 'update_labels', 'base': [], 'kws': [['vlan', ['6', '7']]]})
-        return out
+        return out + kept_corpus('topo')
 
     def observe(self, case):
         try:
@@ -1315,7 +1327,7 @@ class C16(Check):
             o = st.observe(case)
             still = o.get('err_or_none') is not None and o.get('handle') == 'x' and o.get('graph') == FIX['NodeSliver']
             return still, {'case': case, 'impl': o}
-        return [('C16_handle_name_refuted', handle_name)]
+        return [('C16_handle_name_full_or_refuted', handle_name)]
 
     assumptions = [
         'label values are str, list of str, None or another scalar (a list with non-string elements is outside the modelled domain)',
